@@ -164,3 +164,16 @@ Proof.
   - apply Qle_bool_false in Hv. rewrite Hv. reflexivity.
 Qed.
 
+
+(** CDFt SSR (REGENERATED cdft_randomize_zero): zeros are replaced by thr * u with u in [0,1); when thr does not
+    exceed any positive value of the series (it is the smallest positive value of the three inputs, C10) the
+    randomisation never reorders two values, whatever the draws *)
+From IV Require Import GenScalars.
+Open Scope Q_scope.
+Theorem ssr_never_reorders (thr x y ux uy : Q) : 0 <= x -> x < y -> thr <= y -> 0 <= ux -> ux < 1 -> 0 < thr ->
+  cdft_randomize_zero x thr ux <= cdft_randomize_zero y thr uy.
+Proof.
+  intros Hx Hxy Hy U0 U1 Ht. unfold cdft_randomize_zero. change (inject_Z 0) with 0.
+  assert (By : Qeq_bool y 0 = false) by (destruct (Qeq_bool y 0) eqn:E; [apply Qeq_bool_iff in E; lra|reflexivity]). rewrite By.
+  destruct (Qeq_bool x 0) eqn:Bx; [|lra]. nra.
+Qed.
